@@ -20,7 +20,7 @@ func init() {
 		Title:     "Every AST node's span is exact and nested",
 		Technique: "closing-delimiter width rule: End() return expressions of package ast checked against the token that the parser records in each position field (value-origin through parser.expect*), with the token spellings read from token.tokens",
 		Explanation: "Decides for every node kind and every input the structural part of 'End is the offset just after the last token': for each End() method of package ast, every returned expression of the form n.F or n.F + k, where F is a token.Pos field, is compared with the token the parser stores in F (derived from the parser itself: F receives the result of p.expect(K)/expect2(K)/expectClosing(K), directly or through a local); End must add exactly len(K's spelling). " +
-			"Also: Pos() methods never add an offset to a recorded position, and a node type's End never returns a bare token position of a closing delimiter. End covers the last part (rule end-last-field): for every node type the End method it actually has (own or promoted) mentions the last syntactic field the struct declares. End positions (rules end-not-next-token, end-after-last-token): a field that End() returns as it is (LambdaExpr.Last, ImportSpec.EndPos) is never given p.pos — where the NEXT token starts — and is computed from a value after which, on every path, the parser consumes no further token before building the node.",
+			"Also: Pos() methods never add an offset to a recorded position, and a node type's End never returns a bare token position of a closing delimiter. End covers the last part (rule end-last-field): for every node type the End method it actually has (own or promoted) mentions the last syntactic field the struct declares. It also skips none of the child fields declared after the first one it considers (rule end-trailing-field; reviewed: File.Imports/Comments, ForPhrase.Init), and every node literal in the parser sets the position fields that the type's Pos()/End() return unconditionally (rule span-field-set; an assignment elsewhere in the parser counts). Prefixed literals (rule prefixed-literal-end): BasicLit.End adds the prefix length for the kinds whose scanner literal starts at the quote (the c and py string prefixes). End positions (rules end-not-next-token, end-after-last-token): a field that End() returns as it is (LambdaExpr.Last, ImportSpec.EndPos) is never given p.pos — where the NEXT token starts — and is computed from a value after which, on every path, the parser consumes no further token before building the node.",
 		NotCovered: "that the parser records each position at the right token, nesting/ordering of children, End() methods that delegate to a child, and the re-parse clause.",
 		Run:        runC17,
 		Controls: []Control{
@@ -30,6 +30,8 @@ func init() {
 			{Name: "CallExpr-no-width", File: "ast/ast.go", Old: "func (x *CallExpr) End() token.Pos {\n\tif x.NoParenEnd != token.NoPos {\n\t\treturn x.NoParenEnd\n\t}\n\treturn x.Rparen + 1", New: "func (x *CallExpr) End() token.Pos {\n\tif x.NoParenEnd != token.NoPos {\n\t\treturn x.NoParenEnd\n\t}\n\treturn x.Rparen", Expect: "end-width/CallExpr.Rparen"},
 			{Name: "lambda-last-is-next-token", File: "parser/parser.go", Old: "\t\t\tlast = rhs[0].End()\n", New: "\t\t\tlast = p.pos\n", Expect: "end-not-next-token/LambdaExpr.Last@parser.parseLambdaExpr"},
 			{Name: "lambda-paren-outside-span", File: "parser/parser.go", Old: "\t\t\tlast = p.expect(token.RPAREN) + 1\n", New: "\t\t\tp.expect(token.RPAREN)\n\t\t\tlast = rhs[len(rhs)-1].End()\n", Expect: "end-after-last-token/LambdaExpr.Last@parser.parseLambdaExpr"},
+			{Name: "slicelit-index-without-brackets", File: "parser/parser.go", Old: "return &ast.IndexExpr{X: slice, Lbrack: lbrack, Index: len, Rbrack: rbrack}, resultSliceOp", New: "return &ast.IndexExpr{X: slice, Lbrack: lbrack, Index: len}, resultSliceOp", Expect: "span-field-set/IndexExpr.Rbrack@parser.parseArrayTypeOrSliceLit"},
+			{Name: "valuespec-end-skips-tag", File: "ast/ast.go", Old: "\tif s.Tag != nil {\n\t\treturn s.Tag.End()\n\t}\n", New: "", Expect: "end-trailing-field/ValueSpec.Tag"},
 			{Name: "forphrasestmt-promoted-end", File: "ast/ast_gop.go", Old: "func (p *ForPhraseStmt) End() token.Pos {", New: "func (p *ForPhraseStmt) end() token.Pos {", Expect: "end-last-field/ForPhraseStmt.Body"},
 			{Name: "lambda-last-from-End", File: "parser/parser.go", Old: "\t\t\tlast = rhs[0].End()\n", New: "\t\t\tlast = rhs[0].End() + 1\n", Expect: "parser-pos-arith/parser.parseLambdaExpr"},
 			{Name: "cmd-call-ends-at-next-token", File: "parser/parser.go", Old: "\t\tcase len(list) > 0:\n\t\t\tnoParenEnd = list[len(list)-1].End()\n\t\tdefault:", New: "\t\tcase len(list) > 0:\n\t\t\tnoParenEnd = p.pos\n\t\tdefault:", Expect: "end-next-token/parser.parseCallOrConversion"},
@@ -38,6 +40,9 @@ func init() {
 	})
 }
 
+// c17SpanFieldReviewed: node literals in the parser that leave a span position unset on purpose (Type.Field@func).
+var c17SpanFieldReviewed = map[string]string{}
+
 // c17EndAfterReviewed: end positions computed from an operand after which tokens are consumed, reviewed.
 var c17EndAfterReviewed = map[string]string{
 	"CallExpr.NoParenEnd@parser.parseCallOrConversion": "the tokens consumed after the last argument are `...` (then the ellipsis arm, ellipsis + 3, is taken instead — the rule does not correlate the two switches) and the separating comma, after which the loop parses another argument or reports an error; the finer rule end-next-token covers this site",
@@ -45,6 +50,13 @@ var c17EndAfterReviewed = map[string]string{
 
 // c17EndStoreReviewed: stores of p.pos into an end-position field, reviewed (key Type.Field@parserFunc).
 var c17EndStoreReviewed = map[string]string{}
+
+// c17EndSkipReviewed: child fields declared after the first field End() looks at that End() rightly ignores.
+var c17EndSkipReviewed = map[string]string{
+	"File.Imports":   "a view of the import specs that are already among Decls, not a further part of the file",
+	"File.Comments":  "the list of all comment groups of the file (also reachable from the nodes they belong to), not a trailing part",
+	"ForPhrase.Init": "the init statement of `for x <- xs if init; cond` exists only together with Cond, which follows it and is what End() returns",
+}
 
 // c17EndLastReviewed: node types whose End() deliberately ignores the last declared field.
 var c17EndLastReviewed = map[string]string{}
@@ -351,6 +363,44 @@ func runC17(c *core.Check) {
 				}
 				return true
 			})
+			// … and skips none of the parts that may come after the earliest one it considers: ValueSpec.End looking at
+			// Values, Type and Names but not at the Tag declared between them leaves a tagged field's tag outside the spec
+			{
+				mentioned := map[*types.Var]bool{}
+				ast.Inspect(fd.Body, func(n ast.Node) bool {
+					if sel, ok := n.(*ast.SelectorExpr); ok {
+						if s := info.Selections[sel]; s != nil {
+							if fv, ok := s.Obj().(*types.Var); ok {
+								mentioned[fv] = true
+							}
+						}
+					}
+					return true
+				})
+				first := -1
+				for i := 0; i < st.NumFields(); i++ {
+					if mentioned[st.Field(i)] {
+						first = i
+						break
+					}
+				}
+				for i := first + 1; first >= 0 && i < st.NumFields(); i++ {
+					f := st.Field(i)
+					if f.Name() == "Comment" || f.Name() == "Doc" || !(isASTNodeType(f.Type()) || isNodeSlice(f.Type())) {
+						continue
+					}
+					k2 := tn.Name() + "." + f.Name()
+					if why, ok := c17EndSkipReviewed[k2]; ok {
+						if mentioned[f] {
+							c.Bad("end-trailing-field", k2, fd.Pos(), "listed as a reviewed exception but End() mentions the field now: remove the stale entry")
+						} else {
+							c.Note("end-trailing-field", k2, fd.Pos(), "reviewed: "+why)
+						}
+						continue
+					}
+					c.Decide(mentioned[f], "end-trailing-field", k2, fd.Pos(), "considered by End()", "the End method of *ast."+tn.Name()+" ("+core.FuncName(fd)+") considers fields declared before "+k2+" but not "+k2+" itself: when that child is the node's last part it lies outside the node's span")
+				}
+			}
 			if why, ok := c17EndLastReviewed[key]; ok {
 				if mentions {
 					c.Bad("end-last-field", key, fd.Pos(), "listed as a reviewed exception but End() mentions the field now: remove the stale entry")
@@ -363,6 +413,149 @@ func runC17(c *core.Check) {
 		}
 		c.Analysed("node_types_with_end_checked", nLast)
 		c.Floor("end-last-field", 60)
+		c.Floor("end-trailing-field", 15)
+	}
+
+	// ---------- every node the parser builds carries the positions its span is computed from: a position field that Pos() or
+	// End() of the type returns on its final, unconditional return is set by every composite literal of that type in the
+	// parser (or assigned in the same function). `&ast.IndexExpr{X: s, Index: i}` without Rbrack ends at offset 1.
+	{
+		need := map[*types.Named][]*types.Var{}
+		for _, fd := range fds {
+			if len(fd.Body.List) == 0 {
+				continue
+			}
+			recv := info.Defs[fd.Recv.List[0].Names[0]]
+			last, ok := fd.Body.List[len(fd.Body.List)-1].(*ast.ReturnStmt)
+			if !ok || len(last.Results) != 1 {
+				continue
+			}
+			e := ast.Unparen(last.Results[0])
+			if be, ok := e.(*ast.BinaryExpr); ok {
+				e = ast.Unparen(be.X)
+			}
+			f := fieldOf(e, recv)
+			if f == nil || f.Type().String() != "github.com/goplus/xgo/token.Pos" {
+				continue
+			}
+			if nt := namedOf(derefType(recv.Type())); nt != nil {
+				need[nt] = append(need[nt], f)
+			}
+		}
+		nLit := 0
+		// a field assigned anywhere in the parser counts as set (a helper builds the node, its caller adds the position:
+		// `stmt.For = pos`, `mce.Lpos, mce.Rpos = …`)
+		assigned := map[*types.Var]bool{}
+		for _, fd := range core.AllFuncDecls(ppk) {
+			if fd.Body == nil {
+				continue
+			}
+			ast.Inspect(fd.Body, func(n ast.Node) bool {
+				if as, ok := n.(*ast.AssignStmt); ok {
+					for _, l := range as.Lhs {
+						if sel, ok := ast.Unparen(l).(*ast.SelectorExpr); ok {
+							if sl := pinfo.Selections[sel]; sl != nil {
+								if fv, ok := sl.Obj().(*types.Var); ok {
+									assigned[fv] = true
+								}
+							}
+						}
+					}
+				}
+				return true
+			})
+		}
+		for _, fd := range core.AllFuncDecls(ppk) {
+			if fd.Body == nil {
+				continue
+			}
+			ast.Inspect(fd.Body, func(n ast.Node) bool {
+				cl, ok := n.(*ast.CompositeLit)
+				if !ok {
+					return true
+				}
+				nt := namedOf(pinfo.TypeOf(cl))
+				if nt == nil || len(need[nt]) == 0 || len(cl.Elts) == 0 {
+					return true
+				}
+				if _, keyed := cl.Elts[0].(*ast.KeyValueExpr); !keyed {
+					return true
+				}
+				set := map[string]bool{}
+				for _, el := range cl.Elts {
+					if kv, ok := el.(*ast.KeyValueExpr); ok {
+						if id, ok := kv.Key.(*ast.Ident); ok {
+							set[id.Name] = true
+						}
+					}
+				}
+				for _, f := range need[nt] {
+					nLit++
+					key := nt.Obj().Name() + "." + f.Name() + "@" + core.FuncName(fd)
+					okSet := set[f.Name()] || assigned[f]
+					if why, rev := c17SpanFieldReviewed[key]; rev {
+						if okSet {
+							c.Bad("span-field-set", key, cl.Pos(), "listed as a reviewed exception but the field is set now: remove the stale entry")
+						} else {
+							c.Note("span-field-set", key, cl.Pos(), "reviewed: "+why)
+						}
+						continue
+					}
+					c.Decide(okSet, "span-field-set", key, cl.Pos(), "the literal sets the position its span is computed from", core.FuncName(fd)+" builds an *ast."+nt.Obj().Name()+" without "+f.Name()+", the position "+nt.Obj().Name()+"'s Pos()/End() returns: the node's span starts or ends at offset 0/1 instead of at its own token")
+				}
+				return true
+			})
+		}
+		c.Analysed("span_position_literal_checks", nLit)
+		c.Floor("span-field-set", 100)
+	}
+
+	// ---------- a field documented as the position of a token (`Rbrace token.Pos // position of "}"`) is never given the END of
+	// something: End() of the node adds the token's width to it, so the span would reach past the node's last byte
+	{
+		nTok := 0
+		for _, name := range apk.Types.Scope().Names() {
+			tn, ok := apk.Types.Scope().Lookup(name).(*types.TypeName)
+			if !ok {
+				continue
+			}
+			st, ok := tn.Type().Underlying().(*types.Struct)
+			if !ok {
+				continue
+			}
+			for i := 0; i < st.NumFields(); i++ {
+				f := st.Field(i)
+				if f.Type().String() != "github.com/goplus/xgo/token.Pos" || quotedToken(docs[f]) == "" {
+					continue
+				}
+				for _, site := range fieldStores([]*packages.Package{ppk}, f) {
+					if site.Fn == nil || site.Value == nil {
+						continue
+					}
+					nTok++
+					vals := []ast.Expr{site.Value}
+					if o := identObj(pinfo, site.Value); o != nil {
+						if ds := defsOf(pinfo, site.Fn.Body)[o]; len(ds) > 0 {
+							vals = ds
+						}
+					}
+					fromEnd := false
+					for _, v := range vals {
+						if call, ok := ast.Unparen(v).(*ast.CallExpr); ok && len(call.Args) == 0 {
+							if sel, ok := call.Fun.(*ast.SelectorExpr); ok && sel.Sel.Name == "End" {
+								fromEnd = true
+							}
+						}
+					}
+					if !fromEnd {
+						continue // the common case (p.pos, p.expect(…)) is not enumerated
+					}
+					key := tn.Name() + "." + f.Name() + "@" + core.FuncName(site.Fn)
+					c.Bad("token-pos-from-end", key, site.Pos, core.FuncName(site.Fn)+" stores the END of a child in "+tn.Name()+"."+f.Name()+", which is documented as the position of "+quotedToken(docs[f])+" and to which "+tn.Name()+".End() adds that token's width: the node's span reaches one byte past its last token (past the end of the file when the node is last)")
+				}
+			}
+		}
+		c.Ok("token-pos-from-end", "census", 0, core.Sprintf("%d stores into fields documented as token positions examined", nTok))
 	}
 
 	// ---------- prefixed literals: for c"…" and py"…" the scanner's literal text starts at the quote (the prefix letters are
